@@ -128,6 +128,15 @@ pub fn gen_request(seed: u64, nonce: u64, tier: Tier, big_ok: bool, routed: bool
     }
     headers.insert("x-nonce".into(), nonce.to_string());
     let len = size_class(&mut r, tier, big_ok);
+    // header names that mean something elsewhere (an HTTP gateway forwards them): to anemo they
+    // are headers like any other and arrive as sent, whatever their values say about the message
+    let mut rh = Choice::new(seed).stream(&format!("req-http-headers:{nonce}"));
+    if rh.gen_bool(0.15) {
+        headers.insert("content-length".into(), if rh.gen_bool(0.7) { len.to_string() } else { rh.gen_range(0..5000u32).to_string() });
+    }
+    if rh.gen_bool(0.05) {
+        headers.insert("transfer-encoding".into(), "chunked".into());
+    }
     ReqSpec {
         route,
         headers,
@@ -175,6 +184,11 @@ pub fn gen_response(seed: u64, nonce: u64, tier: Tier, big_ok: bool) -> RespSpec
     };
     let mut rh = Choice::new(seed).stream(&format!("resp-hold:{nonce}"));
     let hold_ms = if rh.gen_range(0..12) == 0 { rh.gen_range(1..300) } else { 0 };
+    // (the documented SetResponseHeaderLayer example sets exactly this header)
+    let mut rc = Choice::new(seed).stream(&format!("resp-http-headers:{nonce}"));
+    if rc.gen_bool(0.15) {
+        headers.insert("content-length".into(), if rc.gen_bool(0.7) { len.to_string() } else { rc.gen_range(0..5000u32).to_string() });
+    }
     RespSpec {
         status,
         headers,
